@@ -87,6 +87,11 @@ Theorem C16_background_subtraction_balanced : forall (px : list (Q * Q)),
 Proof. exact bgsub_balanced. Qed.
 Print Assumptions C16_background_subtraction_balanced.
 
-Theorem C16_background_subtraction_le_1 : forall m1 m2 s1 s2, m1 <= 1 -> 0 <= m2 -> 0 <= s1 -> 0 < s2 -> bgsub_px m1 m2 s1 s2 <= 1.
+Theorem C16_background_subtraction_le_1 : forall m1 m2 s1 s2, m1 <= 1 -> 0 <= m2 -> 0 <= s1 -> 0 <= s2 -> bgsub_px m1 m2 s1 s2 <= 1.
 Proof. exact bgsub_le_1. Qed.
 Print Assumptions C16_background_subtraction_le_1.
+
+(* a requested shape so small that the balancing ring lies entirely outside it: the mask is the disk (finite), not 0/0 *)
+Theorem C16_background_subtraction_empty_ring : forall m1 m2 s1 s2, s2 == 0 -> bgsub_px m1 m2 s1 s2 = m1.
+Proof. exact bgsub_empty_ring. Qed.
+Print Assumptions C16_background_subtraction_empty_ring.
